@@ -23,6 +23,7 @@ M = {
  'M25-join-filter-from-event-only': ('join/generated_deployment_pod.go', "		dst.Refilter(filterFn(objs...))\n	}\n\n	handler", "		dst.Refilter(filterFn(objs[:len(objs)/2+len(objs)%2]...))\n	}\n\n	handler", ['C09']),
  'M26-one-typed-pkg-drops-deletes': ('types/job/generated.go', "		evt, err := wrapEvent(pevt)\n		if err != nil {", "		evt, err := wrapEvent(pevt)\n		if err != nil || pevt.Type() == kcache.EventTypeDelete {", ['C20']),
  'M27-one-typed-pkg-filterclone-wrong-parent': ('types/node/generated.go', "func (c *filterController) Refilter(f filter.Filter) error {\n	return c.filterParent.Refilter(f)", "func (c *filterController) Refilter(f filter.Filter) error {\n	return nil", ['C20']),
+ 'M28-list-fastpath-reads-len-unsynchronised': ('cache.go', "func (c *_cache) List() ([]metav1.Object, error) {\n	resultch := make(chan []metav1.Object, 1)\n", "func (c *_cache) List() ([]metav1.Object, error) {\n	if len(c.items) == 0 {\n		select {\n		case <-c.lc.ShuttingDown():\n			return nil, errors.WithStack(ErrNotRunning)\n		default:\n			return []metav1.Object{}, nil\n		}\n	}\n	resultch := make(chan []metav1.Object, 1)\n", ['C15']),
  'M16-monitor-goroutine-callbacks': ('monitor.go', "				m.handler.OnUpdate(ev.Resource())", "				go m.handler.OnUpdate(ev.Resource())", ['C16']),
  'M17-blocking-subscription': ('subscription.go', "			select {\n			case s.outch <- evt:\n			default:\n				s.log.Warnf(\"event buffer overrun\")\n			}", "			s.outch <- evt", ['C10']),
  'M18-filter-sub-no-version': ('subscription_filter.go', "			case !ready:\n				continue\n			}", "			}", ['C08']),
